@@ -341,7 +341,10 @@ def _apply(s, g, op):
             s.check(dt)
             s.check(_derive_dt(dt, op[1], op[2]))
         elif k == "solve":
-            s.solve()
+            try:
+                s.solve()
+            except Exception:  # noqa  (what solve() may raise is C02's statement; the history only needs the call to have happened)
+                pass
     except (SyntaxError, SemanticError, StopIteration, TimeoutError):
         pass
 
